@@ -4,6 +4,8 @@
 # stores it under /verif/seeded/<id>/, then runs the property's quick check against it in /repo and reverts.
 set -u
 id=$1; wt=$2; prop=$3
+# whatever happens (timeout, kill), /repo is left as it was
+trap 'git -C /repo checkout -- . 2>/dev/null' EXIT INT TERM
 export PATH=/opt/veriftools/go1.26.8/bin:$PATH GOTOOLCHAIN=local GOFLAGS=-mod=mod GOPROXY=off GOSUMDB=off
 out=/verif/seeded/$id; mkdir -p $out
 cd $wt || exit 2
